@@ -159,6 +159,7 @@ pub fn run_raw_topic(topic: &str, cx: &mut Raw) -> bool {
     match topic {
         "bytecode" => bytecode(cx),
         "parse" => parse(cx),
+        "literals" => literals(cx),
         _ => return false,
     }
     true
@@ -395,5 +396,204 @@ fn nonneg(t: &T) -> T {
             cases: cases.iter().map(|(p, e)| (match p { Pat::Cmp(o, v) => Pat::Cmp(o.clone(), nonneg(v)), o => o.clone() }, nonneg(e))).collect(),
         },
         T::Paren(e) => T::Paren(Box::new(nonneg(e))),
+    }
+}
+
+// ---------------------------------------------------------------------------------------------
+// C13: literals
+
+fn eval_text(src: &str) -> J {
+    let res = std::panic::catch_unwind(|| {
+        let mut ctx = rscel::CelContext::new();
+        if let Err(e) = ctx.add_program_str("main", src) {
+            return crate::val::err_outcome(&e);
+        }
+        let b = rscel::BindContext::new();
+        crate::val::outcome(&ctx.exec("main", &b))
+    });
+    match res {
+        Ok(o) => o,
+        Err(p) => crate::val::crash(&crate::run::panic_msg(p)),
+    }
+}
+
+fn lit_record(cx: &mut Raw, lit: &str, neg: bool, want: Option<V>) {
+    let text = if neg { format!("-{}", lit) } else { lit.to_string() };
+    let mut j = json!({"chars": crate::val::cps(lit), "text": text, "neg": neg, "out": eval_text(&text)});
+    if let Some(w) = want {
+        j["want"] = w.to_json();
+    }
+    cx.emit(j);
+}
+
+fn spell_char(c: char, q: char, r: &mut Rng, bytes: bool) -> String {
+    let cp = c as u32;
+    let simple = match c {
+        '\u{7}' => Some("\\a"),
+        '\u{8}' => Some("\\b"),
+        '\u{c}' => Some("\\f"),
+        '\n' => Some("\\n"),
+        '\r' => Some("\\r"),
+        '\t' => Some("\\t"),
+        '\u{b}' => Some("\\v"),
+        '\\' => Some("\\\\"),
+        '\'' => Some("\\'"),
+        '"' => Some("\\\""),
+        _ => None,
+    };
+    let must_escape = c == '\\' || c == q;
+    let mut options: Vec<String> = Vec::new();
+    if !must_escape && !(bytes && cp > 0x7f) {
+        options.push(c.to_string());
+    }
+    if let Some(s) = simple {
+        options.push(s.to_string());
+    }
+    if cp <= 0xff {
+        options.push(format!("\\x{:02x}", cp));
+        options.push(format!("\\X{:02X}", cp));
+        options.push(format!("\\{:03o}", cp));
+    } else if cp <= 0o777 && !bytes {
+        options.push(format!("\\{:03o}", cp));
+    }
+    if !bytes {
+        if cp <= 0xffff {
+            options.push(format!("\\u{:04x}", cp));
+            options.push(format!("\\u{:04X}", cp));
+        }
+        options.push(format!("\\U{:08x}", cp));
+    }
+    r.pick(&options).clone()
+}
+
+fn rand_scalar(r: &mut Rng) -> char {
+    let ladder = [0u32, 1, 9, 10, 0x1f, 0x20, 0x27, 0x22, 0x5c, 0x7b, 0x7d, 0x7f, 0x80, 0xff, 0x100, 0x1ff, 0x7ff, 0x800, 0xd7ff, 0xe000, 0xffff, 0x10000, 0x10ffff];
+    loop {
+        let cp = match r.below(4) {
+            0 => *r.pick(&ladder),
+            1 => r.below(0x80) as u32,
+            2 => r.below(0x3000) as u32,
+            _ => r.below(0x110000) as u32,
+        };
+        if let Some(c) = char::from_u32(cp) {
+            return c;
+        }
+    }
+}
+
+pub fn literals(cx: &mut Raw) {
+    // integers: boundaries in every spelling, random 64-bit
+    let mut ints: Vec<u64> = vec![0, 1, 7, 9, 10, 255, 256, 65535, 1 << 31, (1 << 31) - 1, 1 << 32, 1 << 53, (1 << 53) + 1, i64::MAX as u64 - 1, i64::MAX as u64, i64::MAX as u64 + 1, i64::MAX as u64 + 2, u64::MAX - 1, u64::MAX, 0xabcdef, 0xABCDEF0123, 0xdeadbeef, 0xffffffffffffffff, 0x7fffffffffffffff, 0x8000000000000000];
+    for _ in 0..cx.n {
+        ints.push(match cx.rng.below(3) {
+            0 => cx.rng.next(),
+            1 => cx.rng.next() >> cx.rng.below(64),
+            _ => (1u64 << cx.rng.below(64)).wrapping_add(cx.rng.range(-2, 2) as u64),
+        });
+    }
+    for v in ints.iter() {
+        let as_int = if *v <= i64::MAX as u64 { Some(V::Int(*v as i64)) } else { None };
+        for neg in [false, true] {
+            lit_record(cx, &format!("{}", v), neg, as_int.clone());
+            lit_record(cx, &format!("0x{:x}", v), neg, as_int.clone());
+            lit_record(cx, &format!("0X{:X}", v), neg, as_int.clone());
+        }
+        lit_record(cx, &format!("{}u", v), false, Some(V::Uint(*v)));
+        lit_record(cx, &format!("{}U", v), false, Some(V::Uint(*v)));
+        lit_record(cx, &format!("0x{:x}u", v), false, Some(V::Uint(*v)));
+        lit_record(cx, &format!("0x{:X}U", v), false, Some(V::Uint(*v)));
+        lit_record(cx, &format!("00{}", v), false, as_int.clone());
+    }
+    for s in ["18446744073709551616", "18446744073709551616u", "99999999999999999999999", "0x10000000000000000", "0x10000000000000000u", "0x", "0xu", "0xg", "1u1", "0x1.5", "9223372036854775808", "9223372036854775809", "0x8000000000000000", "0xffffffffffffffff", "340282366920938463463374607431768211456u"] {
+        lit_record(cx, s, false, None);
+        lit_record(cx, s, true, None);
+    }
+    // doubles: boundary values and random bit patterns in several spellings
+    let mut ds: Vec<f64> = crate::pools::doubles().into_iter().filter(|d| d.is_finite() && !d.is_sign_negative()).collect();
+    for _ in 0..cx.n {
+        let d = crate::pools::rand_f64(&mut cx.rng).abs();
+        if d.is_finite() {
+            ds.push(d);
+        }
+    }
+    for d in ds.iter() {
+        let short = format!("{:?}", d);
+        let spellings: Vec<String> = vec![
+            if short.contains('.') || short.contains('e') { short.clone() } else { format!("{}.0", short) },
+            format!("{:e}", d),
+            format!("{:E}", d),
+            format!("{:.17e}", d),
+            format!("{:.20e}", d),
+        ];
+        for s in spellings {
+            let s = if s.contains('.') || s.contains('e') || s.contains('E') { s } else { format!("{}.0", s) };
+            lit_record(cx, &s, cx.count % 5 == 0, Some(V::Dbl(*d)));
+        }
+        if *d < 1.0 && *d > 1e-5 {
+            let s = format!("{}", d);
+            if let Some(stripped) = s.strip_prefix("0.") {
+                lit_record(cx, &format!(".{}", stripped), false, Some(V::Dbl(*d)));
+            }
+        }
+    }
+    for s in ["1e", "1e+", "1.e5", "1.", "1.5e+3", "1.5E-3", "1e400", "1e-400", "0.0000000000000000000000000000000000000000000001", "123456789012345678901234567890.0", "4.9e-324", "2.4703282292062327e-324", "2.4703282292062328e-324", "1.7976931348623157e308", "1.7976931348623159e308", "9007199254740993.0", "0.1e1", "00.5", "5e0"] {
+        lit_record(cx, s, false, None);
+    }
+    // strings and byte strings: every escape form chosen at random per character
+    let nstr = cx.n * 2 + 200;
+    for i in 0..nstr {
+        let len = cx.rng.below(7) as usize;
+        let q = if cx.rng.chance(1, 2) { '\'' } else { '"' };
+        if i % 3 == 2 {
+            let bytes: Vec<u8> = (0..len).map(|_| if cx.rng.chance(1, 3) { *cx.rng.pick(&[0u8, 0x27, 0x22, 0x5c, 0x7f, 0x80, 0xff, 0x0a]) } else { cx.rng.below(256) as u8 }).collect();
+            let mut s = String::from("b");
+            s.push(q);
+            for b in bytes.iter() {
+                s.push_str(&spell_char(*b as char, q, &mut cx.rng, true));
+            }
+            s.push(q);
+            lit_record(cx, &s, false, Some(V::Bytes(bytes)));
+        } else {
+            let chars: Vec<char> = (0..len).map(|_| rand_scalar(&mut cx.rng)).collect();
+            let want: String = chars.iter().collect();
+            let fmt = i % 9 == 4;
+            let mut s = String::new();
+            if fmt {
+                s.push('f');
+            }
+            s.push(q);
+            for c in chars.iter() {
+                let sp = spell_char(*c, q, &mut cx.rng, false);
+                if fmt && (sp == "{" || sp == "}") {
+                    s.push_str(&sp);
+                    s.push_str(&sp);
+                } else {
+                    s.push_str(&sp);
+                }
+            }
+            s.push(q);
+            lit_record(cx, &s, false, Some(V::Str(want)));
+        }
+    }
+    // raw strings
+    for body in ["", "a\\n", "\\", "\\\\x41", "é\\u00e9", "{x}", "a\"b", "\\'"] {
+        for q in ['\'', '"'] {
+            if body.contains(q) {
+                continue;
+            }
+            lit_record(cx, &format!("r{}{}{}", q, body, q), false, Some(V::Str(body.to_string())));
+        }
+    }
+    // malformed / truncated escapes, invalid code points, unterminated literals
+    let bad = ["\\x", "\\x4", "\\xg1", "\\u", "\\u12", "\\u123", "\\u12g4", "\\U", "\\U0001F60", "\\U00110000", "\\UFFFFFFFF", "\\ud800", "\\uDFFF", "\\U0000D800", "\\0", "\\01", "\\8", "\\089", "\\400", "\\777", "\\", "\\1", "\\12"];
+    for b in bad {
+        for (pre, q) in [("", '\''), ("", '"'), ("b", '"'), ("f", '\'')] {
+            lit_record(cx, &format!("{}{}{}{}", pre, q, b, q), false, None);
+            lit_record(cx, &format!("{}{}ab{}cd{}", pre, q, b, q), false, None);
+            lit_record(cx, &format!("{}{}{}", pre, q, b), false, None);
+        }
+    }
+    for s in ["'", "\"", "'abc", "\"abc'", "b'", "r'", "f'", "f'}'", "f'a}b'", "f'{{'", "f'}}'", "f'{{}}'", "true", "false", "null", "''", "\"\"", "b''", "'\\u0041'", "'\\U0001F600'", "'\\101'", "b'\\101'", "b'\\377'", "b'\\xff'", "'\\xff'", "'\\X41'", "b\"é\""] {
+        lit_record(cx, s, false, None);
     }
 }
